@@ -1063,6 +1063,25 @@ func c04(c *core.Ctx) {
 			c.Check("onStableChanged:DelOldBlocks(newStable.Time)", "value-flow", len(a) == 1 && argHas(a[0], blk("Time")) && core.Slice(a[0])[osc.Params[1]], g.Pos(), "the bound is derived from the new stable block")
 		}
 		closedCallers(c, "TxGuard.DelOldBlocks", []string{core.FuncName(osc)}, c.Method(pool+".TxGuard", "DelOldBlocks"))
+		// ... and "the new stable block" is the block whose promotion just succeeded: every caller hands onStableChanged the very value it
+		// handed to UpdateStable before (not the current block, whose time can be far ahead: the guard would forget live transactions)
+		us := c.Method(cons+".DPoVP", "UpdateStable")
+		_, oscSites := callersOf(c, c.Method(cons+".DPoVP", "onStableChanged"))
+		c.Floor("onStableChanged/callers", len(oscSites), 2)
+		seqO := map[string]int{}
+		for _, cs := range oscSites {
+			a := c4Args(cs.Instr)
+			ok := false
+			for _, u := range core.CallsIn(cs.Caller, us) {
+				ua := c4Args(u)
+				if len(a) == 1 && len(ua) == 1 && (ua[0] == a[0] || sameExprF(ua[0], a[0])) && core.Dominates(u, cs.Instr) {
+					ok = true
+				}
+			}
+			n := shortFn(cs.Caller)
+			seqO[n]++
+			c.Check("onStableChanged(the block UpdateStable promoted)@"+n+seqSuffix(seqO[n]), "value-flow", ok, cs.Instr.Pos(), "%s hands onStableChanged the block it handed to UpdateStable", n)
+		}
 	})
 
 	// -----------------------------------------------------------------------------------------
